@@ -3,6 +3,12 @@
 case  : {"dim":d, "tree":sx, "ops":[[lg,i]..] (outermost first), "seed":n}
 result: {"in":sx (what the operator really received), "out":sx | {"err":kind},
          "oracle": {"ok":bool, ...}}  (independent check on explicit polynomials)
+
+Mixed physical/logical operator sequences (run_mixed): the sequence is split into maximal one-family blocks; the real
+operators are applied to the whole composition and the real intermediate expression after every block is recorded.
+Block k (family fam_k) is then an ordinary single-family case whose input / output are the expressions before / after
+the block, serialised RELATIVE to fam_k (ser.ser_sx_rel: chains of the other family below the outer run become part of
+the field name).  result: {"in":.., "out": last block's out | {"err":..}, "blocks":[{"fam","ops","in","out","oracle"}..]}
 """
 import json
 import random
@@ -19,6 +25,8 @@ def run_case(case):
     env = ser.Env(dim=case["dim"])
     if case.get("tensor"):
         return run_tensor(case, env)
+    if len(ser.split_blocks(case["ops"])) > 1:
+        return run_mixed(case, env)
     expr = ser.build_sx(case["tree"], env)
     try:
         out = {"in": ser.ser_sx(expr)}
@@ -59,6 +67,67 @@ def run_case(case):
         out["oracle"] = {"ok": bool(ok), "info": info}
     except Exception as e:  # noqa
         out["oracle"] = {"ok": None, "info": "oracle failed: %s" % str(e)[:200]}
+    return out
+
+
+def run_mixed(case, env):
+    """mixed physical/logical operator sequence, checked block-wise (see the module docstring)"""
+    import sympy as sp
+    blocks = ser.split_blocks(case["ops"])
+    expr = ser.build_sx(case["tree"], env)
+    try:
+        out = {"in": ser.ser_sx_rel(expr, blocks[0][0]), "blocks": []}
+    except ser.Unsupported as e:
+        return {"in": case["tree"], "out": {"err": "unsupported-node", "msg": "input: " + str(e)}, "blocks": []}
+    ops = ser.dops()
+    res = expr
+    for k, (fam, bops) in enumerate(blocks):
+        blk = {"fam": fam, "ops": bops}
+        out["blocks"].append(blk)
+        start = res
+        arg = res
+        try:
+            blk["in"] = ser.ser_sx_rel(start, fam)
+            if ser.other_family_atoms(blk["in"], fam):
+                # e.g. dx(x1*u): the real code treats the other family's coordinates as constants; not modelled
+                blk["out"] = {"err": "unsupported-node", "msg": "other-family coordinate under a derivative"}
+                out["out"] = dict(blk["out"], block=k)
+                return out
+            for lg, i in reversed(bops):
+                arg = res
+                res = ops[bool(lg)][i](res)
+            blk["out"] = ser.ser_sx_rel(res, fam)
+        except NotImplementedError:
+            try:
+                blk["out"] = {"err": "not-implemented", "arg": ser.ser_sx_rel(arg, fam)}
+            except ser.Unsupported:
+                blk["out"] = {"err": "not-implemented", "arg": None}
+        except ser.Unsupported as e:
+            blk["out"] = {"err": "unsupported-node", "msg": str(e)}
+        except Exception as e:  # noqa
+            blk["out"] = {"err": type(e).__name__, "msg": str(e)[:200]}
+        if "err" in blk["out"]:
+            out["out"] = dict(blk["out"], block=k)
+            return out
+        # independent oracle for this block: every (opaque) field name gets its own random polynomial, the same one
+        # for the input and the output of the block; sympy.diff is the differentiator
+        try:
+            rng = random.Random(case.get("seed", 0) * 7 + k)
+            conc = ser.Concrete(rng, dim=case["dim"])
+            want = conc.sx(blk["in"], fam)
+            for lg, i in reversed(bops):
+                want = sp.diff(want, conc.syms[fam][i])
+            got = conc.sx(blk["out"], fam)
+            ok, info = ser.numeric_equal(got, want, conc)
+            blk["oracle"] = {"ok": bool(ok), "info": info}
+        except Exception as e:  # noqa
+            blk["oracle"] = {"ok": None, "info": "oracle failed: %s" % str(e)[:200]}
+    out["out"] = out["blocks"][-1]["out"]
+    oks = [b["oracle"]["ok"] for b in out["blocks"]]
+    bad = [k for k, o in enumerate(oks) if o is False]
+    out["oracle"] = {"ok": False if bad else (None if any(o is None for o in oks) else True),
+                     "info": {"block": bad[0], "of": len(oks), "detail": out["blocks"][bad[0]]["oracle"]["info"]} if bad
+                     else {"blocks": len(oks)}}
     return out
 
 
